@@ -24,7 +24,9 @@ func word(x *big.Int) []byte {
 	return out
 }
 
-func isDynamic(t abi.Type) bool { return t.T == abi.StringTy || t.T == abi.BytesTy || t.T == abi.SliceTy }
+func isDynamic(t abi.Type) bool {
+	return t.T == abi.StringTy || t.T == abi.BytesTy || t.T == abi.SliceTy
+}
 
 // valueBytes: how many low-order bytes of the head word carry the value of a static type (32 = no padding).
 func valueBytes(t abi.Type) int {
